@@ -141,52 +141,14 @@ def _retarget_glue(case, fn):
                 nontrivial=case.nontrivial, post=case.post)
 
 
-def _event_lists(rng, tier):
-    """(ref, est, window) on the 1/32 lattice: unsorted, duplicated, empty, pairs exactly at the window"""
-    n = (260 if tier == "quick" else 4000)
-    for k in range(n):
-        w = rng.choice([_Fr(0), _Fr(1, 32), _Fr(1, 16), _Fr(1, 8), _Fr(1, 4), _Fr(1, 2), _Fr(-1, 8) if k % 29 == 0 else _Fr(1, 8)])
-        nr, ne = rng.choice([0, 1, 2, 3, 5, 8, 12]), rng.choice([0, 1, 2, 3, 5, 8, 12])
-        ref = [_Fr(rng.randint(0, 64), 32) for _ in range(nr)]
-        est = []
-        for _ in range(ne):
-            if ref and rng.random() < 0.7:
-                est.append(rng.choice(ref) + rng.choice([-1, 1, 0]) * (w + rng.choice([0, 0, _Fr(1, 32)])))
-            else:
-                est.append(_Fr(rng.randint(0, 64), 32))
-        if rng.random() < 0.5:
-            ref.sort()
-        if rng.random() < 0.5:
-            est.sort()
-        yield ref, est, w
-
-
 def suite_gen_evglue(rng, tier, shard, nshards):
     """the translated definitions vs the real functions: util._fast_hit_windows (hit pairs compared as sets),
     util.match_events (pairs; sizes only when the reference holds equal values, whose argsort order NumPy leaves open) on
     unsorted / duplicated / empty event lists with pairs exactly at the window; onset.f_measure, beat.f_measure,
     segment.detection, segment.deviation on the existing onset / beat / boundary streams."""
-    from mir_eval import util as U
-    for ref, est, w in _event_lists(rng, tier):
-        r, e = _np.array([float(x) for x in ref]), _np.array([float(x) for x in est])
-        info = {"op": "gen.evglue", "ref": [str(x) for x in ref], "est": [str(x) for x in est], "window": str(w)}
-
-        def hits(r=r, e=e, w=w):
-            a, b = U._fast_hit_windows(r, e, float(w))
-            return sorted([int(x), int(y)] for x, y in zip(a, b))
-        yield Case("gen.evglue", ["util._fast_hit_windows", ref, est, w], hits, tag="gen _fast_hit_windows",
-                   info=dict(info, fn="util._fast_hit_windows"), nontrivial=bool(ref and est),
-                   post=lambda m: m if not isinstance(m, list) else sorted([a, b] for a, b in zip(m[0], m[1])))
-        dup = len(set(ref)) != len(ref)
-        if dup:
-            yield Case("gen.evglue", ["util.match_events", ref, est, w],
-                       lambda r=r, e=e, w=w: len(U.match_events(r, e, float(w))), tag="gen match_events (size)",
-                       info=dict(info, fn="util.match_events"), nontrivial=bool(ref and est),
-                       post=lambda m: m if not isinstance(m, list) else len(m))
-        else:
-            yield Case("gen.evglue", ["util.match_events", ref, est, w],
-                       lambda r=r, e=e, w=w: [[int(a), int(b)] for a, b in U.match_events(r, e, float(w))],
-                       tag="gen match_events", info=dict(info, fn="util.match_events"), nontrivial=bool(ref and est))
+    import evglue_cases
+    for c in evglue_cases.util_cases(rng, tier):
+        yield c
     import mir_eval.tempo as _T
     for _ in range(120 if tier == "quick" else 2000):
         rt = [_Fr(rng.choice([0, 0, 60, 90, 120, 121, -1]), 1) for _ in range(rng.choice([2, 2, 2, 2, 1, 3, 0]))]
